@@ -321,6 +321,23 @@ pub fn run(rec: &mut Recorder, thorough: bool, seed: u64) {
         let seq: Vec<Member> = (0..len).map(|_| *rng.pick(pool)).collect();
         observe_decode(rec, &seq);
     }
+    // all seven registered claims present (random order, valid values) with one or two further members before, between or after
+    // them: an object as an issuer with private claims writes it
+    {
+        let reg: Vec<Member> = (0..7).map(|k| Member(k, if (3..6).contains(&k) { "ts" } else { "str" }, 1 + k % 2)).collect();
+        let extras: Vec<Member> = ms.iter().filter(|m| m.0 >= 7).copied().collect();
+        for i in 0..(if thorough { 3000 } else { 400 }) {
+            let mut seq = reg.clone();
+            for j in (1..seq.len()).rev() {
+                seq.swap(j, rng.below(j + 1));
+            }
+            for _ in 0..(1 + i % 2) {
+                let at = if i % 3 == 0 { seq.len() } else { rng.below(seq.len() + 1) };
+                seq.insert(at, *rng.pick(&extras));
+            }
+            observe_decode(rec, &seq);
+        }
+    }
     // round trips of random claims: every presence mask, several values each
     let reps = if thorough { 40 } else { 6 };
     for mask in 0..128usize {
